@@ -12,11 +12,12 @@ open Revm Revm.Model Revm.Model.Interp
 theorem opcode_row {op : Nat} (h : op < 256) :
     eofTag (decode op) = byteTag op ∧ staticLen (decode op) = 1 + immOf op ∧
     ((byteTag op = 8 ∨ byteTag op = 9) → notEofOf op = true) ∧
-    (byteTag op = 7 → (EofValidate.opInfo op).isSome = true) := by
+    (byteTag op = 7 → (EofValidate.opInfo op).isSome = true) ∧
+    (termOf op = true → notEofOf op = false → terminating (decode op) = true) := by
   have := List.all_eq_true.mp opcode_tables_agree op (List.mem_range.mpr h)
-  simp only [Bool.and_eq_true, beq_iff_eq, Bool.or_eq_true, bne_iff_ne, ne_eq] at this
-  obtain ⟨⟨⟨h1, h2⟩, h3⟩, h4⟩ := this
-  refine ⟨h1, h2, ?_, ?_⟩
+  simp only [Bool.and_eq_true, beq_iff_eq, Bool.or_eq_true, bne_iff_ne, ne_eq, Bool.not_eq_true'] at this
+  obtain ⟨⟨⟨⟨h1, h2⟩, h3⟩, h4⟩, h5⟩ := this
+  refine ⟨h1, h2, ?_, ?_, ?_⟩
   · intro h89
     rcases h3 with h3 | h3
     · rcases h89 with e | e
@@ -27,6 +28,11 @@ theorem opcode_row {op : Nat} (h : op < 256) :
     rcases h4 with h4 | h4
     · exact absurd h7 h4
     · exact h4
+  · intro ht hn
+    rcases h5 with (h5 | h5) | h5
+    · rw [ht] at h5; cases h5
+    · rw [hn] at h5; cases h5
+    · exact h5
 
 theorem instrLenOf_static (I : Instr) (sec : List Nat) (i : Nat) :
     instrLenOf I sec i = staticLen I + (if eofTag I = 7 then 2 + 2 * sec.getD (i + 1) 0 else 0) := by
@@ -60,7 +66,7 @@ theorem instrLen_eq {sec : List Nat} (hb : ∀ b ∈ sec, b < 256) {j : Nat} (hj
     (hc : j + 1 < sec.length ∨ sec[j] ≠ 0xe2) :
     instrLen sec j = 1 + Spec.Eof.immLen sec.toArray j := by
   have hop : sec[j] < 256 := hb _ (List.getElem_mem hj)
-  obtain ⟨t1, t2, _, t4⟩ := opcode_row hop
+  obtain ⟨t1, t2, _, t4, _⟩ := opcode_row hop
   unfold instrLen
   rw [instrLenOf_static, getD_of_lt hj, t1, t2, immLen_eq hj]
   unfold immOf
@@ -140,7 +146,8 @@ theorem boundary_isInstrStart {sec : List Nat} (hb : ∀ b ∈ sec, b < 256) {i 
 theorem byteTag_spec (op : Nat) :
     (byteTag op = 1 ↔ op = 0xe3) ∧ (byteTag op = 2 ↔ op = 0xe5) ∧ (byteTag op = 3 ↔ op = 0xec) ∧
     (byteTag op = 4 ↔ op = 0xee) ∧ (byteTag op = 5 ↔ op = 0xe0) ∧ (byteTag op = 6 ↔ op = 0xe1) ∧
-    (byteTag op = 7 ↔ op = 0xe2) ∧ (byteTag op = 8 ↔ op = 0x38) ∧ (byteTag op = 9 ↔ op = 0x39) := by
+    (byteTag op = 7 ↔ op = 0xe2) ∧ (byteTag op = 8 ↔ op = 0x38) ∧ (byteTag op = 9 ↔ op = 0x39) ∧
+    (byteTag op = 10 ↔ op = 0xe4) := by
   unfold byteTag
   repeat' split
   all_goals omega
@@ -191,8 +198,8 @@ theorem sectionOk_inRange {sec : List Nat} {nT nC : Nat} (hb : ∀ b ∈ sec, b 
   have hlt : i < sec.length := by have := hs.2; rw [List.size_toArray] at this; exact this
   have ok := h i hs
   have hop : sec[i] < 256 := hb _ (List.getElem_mem hlt)
-  obtain ⟨t1, t2, t89, t4⟩ := opcode_row hop
-  obtain ⟨b1, b2, b3, b4, b5, b6, b7, b8, b9⟩ := byteTag_spec sec[i]
+  obtain ⟨t1, t2, t89, t4, _⟩ := opcode_row hop
+  obtain ⟨b1, b2, b3, b4, b5, b6, b7, b8, b9, _⟩ := byteTag_spec sec[i]
   have hcode : sec.toArray[i]? = some sec[i] := by rw [List.getElem?_toArray, List.getElem?_eq_getElem hlt]
   have himm := ok.imm_in
   rw [List.size_toArray] at himm
@@ -319,5 +326,40 @@ theorem validated_inRange {bs : List Nat} {t : Option EofValidate.CodeType} {e :
       refine ⟨hbytes, fun i hi => ?_⟩
       rw [htl]
       exact sectionOk_inRange hbytes (hc.sections k sec hk) hi
+
+/-! ## conversely: every instruction start of C26's decoding is a boundary of C25's scan -/
+
+theorem reach_scan {sec : List Nat} (hb : ∀ b ∈ sec, b < 256) {a b : Nat}
+    (hr : Spec.Eof.Reach sec.toArray a b) (hlt : b < sec.length) :
+    ∀ f, sec.length + 1 ≤ a + f → b ∈ scan sec f a := by
+  induction hr with
+  | refl i =>
+    intro f hf
+    cases f with
+    | zero => omega
+    | succ f => unfold scan; rw [if_pos hlt]; exact List.mem_cons_self ..
+  | @step i j hi hr ih =>
+    intro f hf
+    rw [List.size_toArray] at hi
+    cases f with
+    | zero => omega
+    | succ f =>
+      unfold scan
+      rw [if_pos hi]
+      refine List.mem_cons_of_mem _ ?_
+      by_cases hc : i + 1 < sec.length ∨ sec[i] ≠ 0xe2
+      · rw [instrLen_eq hb hi hc]
+        have e : i + (1 + Spec.Eof.immLen sec.toArray i) = i + 1 + Spec.Eof.immLen sec.toArray i := by omega
+        rw [e]
+        exact ih hlt f (by omega)
+      · -- RJUMPV in the last byte: nothing is reachable behind it inside the section
+        exfalso
+        have hle := reach_le hr
+        omega
+
+theorem isInstrStart_boundary {sec : List Nat} (hb : ∀ b ∈ sec, b < 256) {i : Nat}
+    (h : Spec.Eof.IsInstrStart sec.toArray i) : i ∈ boundaries sec := by
+  have hlt : i < sec.length := by have := h.2; rw [List.size_toArray] at this; exact this
+  exact reach_scan hb h.1 hlt _ (by omega)
 
 end Revm.Proofs.Interp
